@@ -87,6 +87,11 @@ pub struct Connection<S, Stat, Disc, Filt, Stra, Auth, Loca> {
 
     // config and internal state
     keep_alive_id: Option<u64>,
+    // the client missed a keep-alive and the connection has to end. Kept in the connection, as the
+    // future that noticed it may be dropped (select) while the disconnect is still being sent
+    keep_alive_missed: bool,
+    // the timeout disconnect was already queued for sending
+    timeout_announced: bool,
     keep_alive_interval: Interval,
     auth_secret: Option<Vec<u8>>,
     max_packet_length: VarInt,
@@ -136,6 +141,8 @@ where
             localization_adapter,
             // config and internal state
             keep_alive_id: None,
+            keep_alive_missed: false,
+            timeout_announced: false,
             keep_alive_interval: interval,
             auth_secret: None,
             max_packet_length: DEFAULT_MAX_PACKET_LENGTH,
@@ -175,6 +182,11 @@ where
         // that packet until the next one is due
         self.flush_queued().await?;
 
+        // a missed keep-alive may have been noticed by a future that was dropped since
+        if self.keep_alive_missed {
+            return Err(self.end_missed_keep_alive().await);
+        }
+
         // wait for the next packet, send keep-alive packets as necessary. Received bytes are only
         // consumed once the packet is complete, such that this future may be dropped at any point.
         let mut announced = false;
@@ -211,13 +223,7 @@ where
                     if !keep_alive { continue; }
                     debug!("checking that keep-alive packet was received");
                     if self.keep_alive_id.is_some() {
-                        let reason = self.localization_adapter.localize(
-                            self.client_locale.as_deref(),
-                            "disconnect_timeout",
-                            &[]
-                        ).await?;
-                        self.send_packet(conf_out::DisconnectPacket { reason }).await?;
-                        return Err(Error::MissedKeepAlive);
+                        return Err(self.end_missed_keep_alive().await);
                     }
                     debug!("sending next keep-alive packet");
                     let id = crypto::generate_keep_alive();
@@ -304,6 +310,32 @@ where
             self.write_buffer.drain(..written);
         }
         Ok(())
+    }
+
+    /// Ends the connection of a client that missed a keep-alive: sends the timeout disconnect (once)
+    /// and returns the error to end the connection with. The decision is recorded first, such that
+    /// it survives if this future is dropped halfway and can be completed by calling this again.
+    async fn end_missed_keep_alive(&mut self) -> Error {
+        self.keep_alive_missed = true;
+        if self.timeout_announced {
+            return match self.flush_queued().await {
+                Ok(()) => Error::MissedKeepAlive,
+                Err(err) => err,
+            };
+        }
+        let reason = match self
+            .localization_adapter
+            .localize(self.client_locale.as_deref(), "disconnect_timeout", &[])
+            .await
+        {
+            Ok(reason) => reason,
+            Err(err) => return err.into(),
+        };
+        self.timeout_announced = true;
+        match self.send_packet(conf_out::DisconnectPacket { reason }).await {
+            Ok(()) => Error::MissedKeepAlive,
+            Err(err) => err,
+        }
     }
 
     fn handle_keep_alive(&mut self, id: u64) {
@@ -621,6 +653,11 @@ where
                 targets,
             ) => maybe_target?,
         };
+
+        // a keep-alive may have been missed just as the last step completed
+        if self.keep_alive_missed {
+            return Err(self.end_missed_keep_alive().await);
+        }
 
         // disconnect if not target found
         let Some(target) = target else {
